@@ -43,6 +43,8 @@ func TestMain(m *testing.M) {
 	os.Exit(code)
 }
 
+var glob0xffKnown = ev.KnownActive("glob-limits-0xff")
+
 type failer interface {
 	Fatalf(format string, args ...any)
 	Helper()
@@ -71,6 +73,15 @@ func runProgram(t failer, c *ev.Collector, p program, dumpAlways bool) (labels m
 	var abs strings.Builder
 	var expired = map[string]bool{} // key/id that got a deadline change or whose key was renamed
 	for i, cmd := range p.Cmds {
+		if glob0xffKnown && len(cmd) > 1 {
+			switch strings.ToLower(cmd[0]) {
+			case "keys", "pdel":
+				if model.GlobPrefixEndsFF(cmd[len(cmd)-1]) {
+					c.Excluded("glob-limits-0xff")
+					continue
+				}
+			}
+		}
 		before := db.Clone()
 		exp := model.Exec(db, cmd)
 		if exp.Unsupported {
